@@ -34,7 +34,11 @@ pub fn assert_max_spread(
         {
             return Err(StdError::generic_err("Spread limit exceeded"));
         }
-    } else if Decimal256::from_ratio(spread_amount, return_amount + spread_amount) > max_spread {
+    } else if !(return_amount.is_zero() && spread_amount.is_zero())
+        && Decimal256::from_ratio(spread_amount, return_amount + spread_amount) > max_spread
+    {
+        // when both the return and the spread are zero there is no spread to speak of; computing
+        // the ratio would divide by zero
         return Err(StdError::generic_err("Spread limit exceeded"));
     }
 
